@@ -281,12 +281,14 @@ def _run_with_fault(fn, k):
 def _c11_fault(h):
     regs = {"sq": zoo.region("square2", 0), "ring": zoo.region("ring", 0), "unit": zoo.region("unit", 1, (1, 1)), "bar": zoo.region("bar3", 1, (0, 0)), "L": zoo.region("L", 1, (1, 0)),
             "big": zoo.region("big3", 0)}
-    combos = [("ring", "unit"), ("big", "ring"), ("sq", "bar"), ("ring", "L")]
+    regs["~unit"] = ~zoo.region("unit", 1, (1, 1))
+    regs["~big"] = ~zoo.region("big3", 0)
+    combos = [("ring", "unit"), ("~big", "~unit"), ("big", "ring"), ("sq", "bar"), ("ring", "L")]
     ops = {"B in A": lambda a, b: b in a, "A in B": lambda a, b: a in b, "A|B": lambda a, b: a | b, "A&B": lambda a, b: a & b, "A-B": lambda a, b: a - b, "A^B": lambda a, b: a ^ b,
            "A==B": lambda a, b: a == b, "float": lambda a, b: (float(a), float(b)), "copy": lambda a, b: (_copy.deepcopy(a), _copy.copy(b)),
            "moment": lambda a, b: IntegrateShape.polynomial(a, 1, 1), "~A in ~B": lambda a, b: (~a) in (~b)}
     if h.tier == "quick":
-        combos = combos[:3]
+        combos = combos[:4]
     for na, nb in combos:
         RA, RB = regs[na], regs[nb] if nb in regs else None
         # second operand of ("big", "ring") lives on lattice 0 too -> shift it to lattice 1
